@@ -117,7 +117,7 @@ def prepare_oracle(ctx, wfs, timeout_s=900):
             nodes = frozenset(body.get('nodes', []))
             edges = frozenset(tuple(e) for e in body.get('edges', []))
             terminals[i].add((acc, nodes, edges))
-            res[i] = {'accepted': acc, 'nodes': set(nodes), 'edges': set(edges)}
+            res[i] = {'accepted': acc, 'nodes': set(nodes), 'edges': set(edges), 'req': {k: set(v) for k, v in (body.get('req') or {}).items()}}
     ok = rc == 0 and all(r is not None for r in res) and 'Invariant Confluent is violated' not in out
     conf = all(len(t) == 1 for t in terminals)
     return ok, res, vlib.tlc_stats(out), out, conf
